@@ -31,17 +31,8 @@ def run(ctx):
             stores = [x for x in ast.walk(raw.node) if isinstance(x, ast.Assign) and any(isinstance(t, ast.Attribute) for t in x.targets)]
             r.ob("C06.per-instance-match", raw.qualname + "#stores", not stores, "_match stores state besides its own cached value", raw.where())
     r.floor("C06.per-instance-match", 6)
-    # the per-instance cache (cached_property keeps values in a WeakKeyDictionary) is keyed by the instance only as long
-    # as instances hash and compare by identity
-    seen = set()
-    for kc in ctx.inventory:
-        for c in p.mro(kc.ci):
-            if hasattr(c, "attrs") and id(c) not in seen:
-                seen.add(id(c))
-                bad = [a for a in ("__eq__", "__hash__", "__ne__") if a in c.attrs]
-                r.ob("C06.identity-keyed", c.qualname, not bad,
-                     "%s defines %s: instances that compare equal share one cached match, so a verdict can be answered from another record" % (c.qualname, ", ".join(bad)), c.where())
-    r.floor("C06.identity-keyed", 80)
+    from ..rules_misc import identity_rule
+    ctx.guard(identity_rule, ctx, "C06.identity-keyed")
     ctx.guard(k19_match, ctx, "C06")
     from ..rules_misc import k21_match_overrides
     ctx.guard(k21_match_overrides, ctx, "C06")
